@@ -86,6 +86,9 @@ func exoticDag(r *prng.R, n int) []Node {
 			data = append(data, r.Bytes(32*k)...)
 			for j := 0; j < k; j++ {
 				d := r.Intn(1000)
+				if r.Chance(3) { // a stored depth at the limit, at any level
+					d = nearLimit(r)
+				}
 				data = append(data, byte(d>>8), byte(d))
 			}
 			dag[i] = Node{Special: true, Mask: m, Bits: byteBits(data...)}
@@ -156,6 +159,11 @@ func genC02(c *Ctx) {
 		// origin "parsed from a bag of cells": every header variant of the
 		// reference serialiser incl. stored hashes, every cell a root (c02b.go)
 		c02ParsedOrigin(c, in, dag, root, i%7 == 0)
+		// origin "decoded from JSON" (fresh and used receivers) and every
+		// Deserialize* entry point / hash accessor (c02c.go)
+		c02DepthOracle(c, in, dag, root, out)
+		c02JsonOrigin(c, dag, root, out, i%9 == 0)
+		c02EntryPoints(c, in, dag, root, out)
 	}
 	// the root cell of every real block in testdata (Merkle updates with pruned
 	// branches inside): origin "parsed from a bag of cells"
@@ -178,6 +186,10 @@ func genC02(c *Ctx) {
 		}
 		c02ParsedOrigin(c, in, dag, 0, i%2 == 0)
 	}
+	// cells of non-zero level whose stored depths differ per level (c02c.go)
+	genC02LevelDepths(c)
+	// cells built from BitStrings returned by the BitString-producing APIs (c02c.go)
+	genC02FromBits(c)
 	// goroutines hashing unrelated cells (c02b.go)
 	genC02Conc(c)
 	// histories of requests on one caching hasher (c02b.go)
